@@ -878,3 +878,215 @@ Section Serial.
     In k1 (cr_keys a) -> In k1 (cr_rd b) -> ~ (cr_rts b < cr_cts a).
   Proof. intros S Hb Hap Hw Hr Hlt. pose proof (ser_no_lost_update L a b k1 S Hb Hap Hr Hw). lia. Qed.
 End Serial.
+
+(* ---------------------------------------------------------------------------------------- *)
+(* the memtable (skiplist Put)                                                               *)
+Lemma ent_cmp_eq_l e x y : ent_cmp e x = Eq -> ent_cmp e y = ent_cmp x y.
+Proof. intros H. apply ent_cmp_eq in H. destruct H as [Hk Hv]. unfold ent_cmp. now rewrite Hk, Hv. Qed.
+
+Lemma mt_put_in s e x : In x (mt_put s e) -> x = e \/ In x s.
+Proof.
+  induction s as [|y s IH]; cbn [mt_put].
+  - intros [H|[]]; auto.
+  - destruct (ent_cmp e y).
+    + intros [H|H]; auto. right. now right.
+    + intros [H|H]; auto.
+    + intros [H|H]; [right; now left|]. destruct (IH H); auto. right. now right.
+Qed.
+
+Lemma mt_put_in_e s e : In e (mt_put s e).
+Proof. induction s as [|y s IH]; cbn [mt_put]; [now left|]. destruct (ent_cmp e y); [now left|now left|now right]. Qed.
+
+Definition same_kv (a b : entry) : Prop := e_key a = e_key b /\ e_ver a = e_ver b.
+
+Lemma mt_put_keep s e x : In x s -> ~ same_kv e x -> In x (mt_put s e).
+Proof.
+  induction s as [|y s IH]; [contradiction|]. intros Hin Hne. cbn [mt_put].
+  destruct (ent_cmp e y) eqn:E.
+  - destruct Hin as [->|Hin]; [|now right]. apply ent_cmp_eq in E. contradiction.
+  - now right.
+  - destruct Hin as [->|Hin]; [now left|right; auto].
+Qed.
+
+Lemma mt_put_sorted s e : sorted s -> sorted (mt_put s e).
+Proof.
+  induction s as [|y s IH]; intros Hs; cbn [mt_put].
+  - constructor; constructor.
+  - inversion Hs as [|? ? Hs' Hall]; subst. destruct (ent_cmp e y) eqn:E.
+    + constructor; auto. eapply Forall_impl; [|exact Hall]. intros z Hz. unfold lt_ent in *.
+      now rewrite (ent_cmp_eq_l _ _ z E).
+    + constructor; auto. constructor; auto.
+      eapply Forall_impl; [|exact Hall]. intros z Hz. eapply lt_ent_trans; eauto.
+    + constructor; [apply IH; exact Hs'|]. apply Forall_forall. intros z Hz. apply mt_put_in in Hz.
+      destruct Hz as [->|Hz]; [now apply ent_cmp_gt_lt|]. rewrite Forall_forall in Hall. auto.
+Qed.
+
+Lemma fold_mt_put_sorted es s : sorted s -> sorted (fold_left mt_put es s).
+Proof. revert s. induction es as [|e es IH]; intros s H; cbn; auto. apply IH. now apply mt_put_sorted. Qed.
+
+Lemma fold_mt_put_in es s x : In x (fold_left mt_put es s) -> In x es \/ In x s.
+Proof.
+  revert s. induction es as [|e es IH]; intros s; cbn [fold_left]; auto.
+  intros H. destruct (IH _ H) as [H1|H1]; [left; now right|].
+  apply mt_put_in in H1. destruct H1 as [->|H1]; [left; now left|now right].
+Qed.
+
+Lemma fold_mt_put_keep es s x : In x s -> (forall e, In e es -> ~ same_kv e x) -> In x (fold_left mt_put es s).
+Proof.
+  revert s. induction es as [|e es IH]; intros s Hin H; cbn [fold_left]; auto.
+  apply IH; [|intros; apply H; now right]. apply mt_put_keep; auto. apply H. now left.
+Qed.
+
+Lemma fold_mt_put_new es s x :
+  NoDup (map e_key es) -> In x es -> In x (fold_left mt_put es s).
+Proof.
+  revert s. induction es as [|e es IH]; intros s Hnd Hin; [contradiction|]. cbn [fold_left].
+  cbn [map] in Hnd. inversion Hnd as [|? ? Hn Hd]; subst. destruct Hin as [->|Hin]; [|auto].
+  apply fold_mt_put_keep; [apply mt_put_in_e|]. intros e He [Hk _]. apply Hn. rewrite <- Hk. now apply in_map.
+Qed.
+
+(* ---------------------------------------------------------------------------------------- *)
+(* the tree holds exactly the applied writes (histories without compactions)                 *)
+Lemma destruct_lsm d : d = mkLsm (l_mt d) (l_imm d) (l_levels d).
+Proof. destruct d; reflexivity. Qed.
+
+Lemma xstep_db fx s o s' : xstep fx s o = XOk s' -> xop_nocompact o ->
+  (s_db (x_base s') = s_db (x_base s) /\ s_writes (x_base s') = s_writes (x_base s) /\
+   s_next (x_base s) <= s_next (x_base s'))
+  \/ (exists id, s_db (x_base s') = flush_oldest (rotate (s_db (x_base s))) id /\
+                 s_writes (x_base s') = s_writes (x_base s) /\ s_next (x_base s') = s_next (x_base s))
+  \/ (exists t x cts, lookup (s_txns (x_base s)) t = Some x /\ x_base s' = applied_state (x_base s) t x cts).
+Proof.
+  intros H Hnc. destruct o as [o|on|t cts].
+  - destruct o; try contradiction;
+    try (unfold xstep in H; apply lift_ok in H; destruct H as (s1 & H & ->); unfold step in H;
+         step_inv H; inversion H; subst; left; cbn; repeat split; lia).
+    + (* Commit *)
+      unfold xstep in H. destruct (x_blocked s) eqn:Eb.
+      * destruct (lookup (s_txns (x_base s)) t) as [x|] eqn:El; [|discriminate].
+        destruct (rejected_commit_cases fx (x_base s) t x cts c_errBlocked)
+          as [(Ep & E)|[(Ep & Ed & E)|[(Ep & Ed & Ec & E)|(Ep & Ed & Ec & E)]]]; rewrite E in H;
+          destruct (_ =? r); try discriminate; inversion H; subst; left; cbn; repeat split; try lia.
+        unfold commit_next. destruct (s_managed (x_base s)); lia.
+      * apply lift_ok in H. destruct H as (s1 & H & ->). unfold step in H.
+        destruct (lookup (s_txns (x_base s)) t) as [x|] eqn:El; [|discriminate].
+        destruct (txn_commit_cases (x_base s) t x cts)
+          as [(Ep & E)|[(Ep & Ed & E)|[(Ep & Ed & Ec & E)|(Ep & Ed & Ec & E)]]]; rewrite E in H;
+          destruct (_ && _) eqn:Ecode in H; try discriminate; inversion H; subst.
+        -- left; cbn; repeat split; lia.
+        -- left; cbn; repeat split; lia.
+        -- left; cbn; repeat split; lia.
+        -- right. right. exists t, x, cts. auto.
+    + (* Flush *)
+      unfold xstep in H. apply lift_ok in H. destruct H as (s1 & H & ->). unfold step in H.
+      inversion H; subst. right. left. exists id. cbn. auto.
+  - cbn in H. inversion H; subst. left. cbn. repeat split; lia.
+  - unfold xstep in H.
+    destruct (lookup (s_txns (x_base s)) t) as [x|] eqn:El; [|discriminate].
+    destruct (rejected_commit_cases fx (x_base s) t x cts c_errTooBig)
+      as [(Ep & E)|[(Ep & Ed & E)|[(Ep & Ed & Ec & E)|(Ep & Ed & Ec & E)]]]; rewrite E in H;
+      cbn in H; try discriminate; inversion H; subst. left. cbn. repeat split; auto.
+    unfold commit_next. destruct (s_managed (x_base s)); lia.
+Qed.
+
+Definition db_inv (b : sys) : Prop :=
+  lsm_wf (s_db b) /\ l_levels (s_db b) <> [] /\
+  (forall x, In x (all_entries (s_db b)) <-> In x (s_writes b)) /\
+  (forall x, In x (s_writes b) -> e_ver x < s_next b) /\
+  nodup_kv (s_writes b).
+
+Lemma lsm_wf_flush d id : lsm_wf d -> l_levels d <> [] -> lsm_wf (flush_oldest (rotate d) id).
+Proof.
+  intros (Hmt & Himm & Hlev) Hne. unfold rotate, flush_oldest. cbn [l_imm l_mt l_levels].
+  assert (Hall: Forall sorted (l_imm d ++ [l_mt d])) by (apply Forall_app; split; auto).
+  destruct (l_imm d ++ [l_mt d]) as [|mm r] eqn:E; [destruct (l_imm d); discriminate|].
+  inversion Hall as [|? ? Hm Hr]; subst. unfold lsm_wf. cbn [l_mt l_imm l_levels].
+  split; [constructor|]. split; auto.
+  destruct mm as [|e0 mm']; auto.
+  destruct (l_levels d) as [|l0 rest]; [congruence|]. cbn [add_l0]. destruct Hlev as [Hl0 Hrest].
+  split; auto. apply Forall_app. split; auto.
+Qed.
+
+Lemma flush_levels_ne d id : l_levels d <> [] -> l_levels (flush_oldest (rotate d) id) <> [].
+Proof.
+  intros Hne. unfold rotate, flush_oldest. cbn [l_imm l_mt l_levels].
+  destruct (l_imm d ++ [l_mt d]) as [|mm r]; cbn; auto.
+  destruct mm; cbn; auto. destruct (l_levels d); [congruence|]. cbn. discriminate.
+Qed.
+
+Section ReachDb.
+  Variables (fx d : bool) (nk : N) (nl : nat) (next0 : N).
+  Let s0 := init_xsys false d nk nl next0.
+  Definition xop_api_nc (o : xop) : Prop := xop_api o /\ xop_nocompact o.
+
+  Lemma init_db_inv : (0 < nl)%nat -> db_inv (x_base s0).
+  Proof.
+    intros Hnl. unfold db_inv, s0, init_xsys, init_sys. cbn [x_base s_db s_writes s_next l_levels].
+    destruct nl as [|n]; [lia|]. cbn [repeat]. split; [|split; [|split; [|split]]].
+    - unfold lsm_wf. cbn [l_mt l_imm l_levels]. split; [constructor|]. split; [constructor|].
+      split; [constructor|]. apply Forall_forall. intros l Hl. apply repeat_spec in Hl. subst l.
+      split; constructor.
+    - discriminate.
+    - intros x. split; [|contradiction]. intros H. apply all_entries_in in H. cbn [l_mt l_imm l_levels] in H.
+      destruct H as [[]|[(s & [] & _)|(l & t & Hl & Ht & _)]].
+      destruct Hl as [<-|Hl]; [contradiction|]. apply repeat_spec in Hl. subst l. contradiction.
+    - contradiction.
+    - intros a b [].
+  Qed.
+
+  Lemma reach_db_inv s L : (0 < nl)%nat -> xreach xop_api_nc fx s0 s L -> db_inv (x_base s).
+  Proof.
+    intros Hnl. induction 1 as [|s L o s' R IH [Pa Pn] St]; [now apply init_db_inv|].
+    destruct IH as (Hwf & Hne & Hent & Hver & Hnd).
+    assert (Rapi: xreach xop_api fx s0 s L) by (eapply xreach_mono; [|exact R]; intros o' [A _]; exact A).
+    destruct (reach_flags _ _ _ _ _ _ _ _ _ Rapi) as [Fm _].
+    destruct (xstep_db _ _ _ _ St Pn) as [(Ed & Ew & En)|[(id & Ed & Ew & En)|(t & x & cts & El & Es)]].
+    - unfold db_inv. rewrite Ed, Ew. split; [|split; [|split; [|split]]]; auto.
+      intros y Hy. specialize (Hver _ Hy). lia.
+    - unfold db_inv. rewrite Ed, Ew, En. split; [|split; [|split; [|split]]]; auto.
+      + now apply lsm_wf_flush.
+      + now apply flush_levels_ne.
+      + intros y. rewrite flush_same_entries by assumption. apply Hent.
+    - pose proof (reach_wf _ _ _ _ _ _ _ _ _ Rapi _ _ El) as W.
+      pose proof (reach_api _ _ _ _ _ _ _ _ Rapi _ _ El) as A.
+      destruct (rec_of_api t x (commit_ts (x_base s) cts) true W A) as [Rv Rnd]. cbn [rec_of cr_wr cr_cts] in Rv, Rnd.
+      set (es := commit_entries x (commit_ts (x_base s) cts)) in *.
+      assert (Ets: commit_ts (x_base s) cts = s_next (x_base s)) by (unfold commit_ts; now rewrite Fm).
+      rewrite Es. unfold db_inv, applied_state. cbn [s_db s_writes s_next]. fold es.
+      unfold commit_next. rewrite Fm. split; [|split; [|split; [|split]]].
+      + destruct Hwf as (W1 & W2 & W3). unfold lsm_wf. cbn [apply_entries l_mt l_imm l_levels].
+        split; [now apply fold_mt_put_sorted|]. split; auto.
+      + exact Hne.
+      + intros y. split; intros H.
+        * apply in_or_app. apply all_entries_in in H. cbn [apply_entries l_mt l_imm l_levels] in H.
+          destruct H as [H|H].
+          -- apply fold_mt_put_in in H. destruct H as [H|H]; [now right|]. left. apply Hent. apply all_entries_in. now left.
+          -- left. apply Hent. apply all_entries_in. now right.
+        * apply all_entries_in. cbn [apply_entries l_mt l_imm l_levels]. apply in_app_iff in H.
+          destruct H as [H|H].
+          -- apply Hent in H. pose proof H as Hold. apply all_entries_in in H. destruct H as [H|H]; [|now right]. left.
+             apply fold_mt_put_keep; auto. intros e He [_ Hv]. rewrite (Rv _ He), Ets in Hv.
+             apply Hent in Hold. specialize (Hver _ Hold). lia.
+          -- left. now apply fold_mt_put_new.
+      + intros y Hy. apply in_app_iff in Hy. destruct Hy as [Hy|Hy].
+        * specialize (Hver _ Hy). lia.
+        * rewrite (Rv _ Hy), Ets. lia.
+      + intros a b Ha Hb Hk Hv. apply in_app_iff in Ha, Hb. destruct Ha as [Ha|Ha], Hb as [Hb|Hb].
+        * now apply Hnd.
+        * exfalso. specialize (Hver _ Ha). rewrite Hv, (Rv _ Hb), Ets in Hver. lia.
+        * exfalso. specialize (Hver _ Hb). rewrite <- Hv, (Rv _ Ha), Ets in Hver. lia.
+        * clear -Rnd Ha Hb Hk. induction es as [|e es IH]; [contradiction|].
+          cbn [map] in Rnd. inversion Rnd as [|? ? Hn Hd]; subst.
+          destruct Ha as [->|Ha], Hb as [->|Hb]; auto.
+          -- exfalso. apply Hn. rewrite Hk. now apply in_map.
+          -- exfalso. apply Hn. rewrite <- Hk. now apply in_map.
+  Qed.
+
+  (* Get at any timestamp = the newest applied write at or below it *)
+  Theorem reach_get_newest s L k r : (0 < nl)%nat -> xreach xop_api_nc fx s0 s L ->
+    db_get (s_db (x_base s)) k r = newest (s_writes (x_base s)) k r.
+  Proof.
+    intros Hnl R. destruct (reach_db_inv _ _ Hnl R) as (Hwf & Hne & Hent & Hver & Hnd).
+    rewrite db_get_newest by assumption. symmetry. apply newest_ext; auto. intros x. symmetry. apply Hent.
+  Qed.
+End ReachDb.
